@@ -417,9 +417,17 @@ fn gen_v1(hseed: u64) -> V1Spec {
             // a pure receiver sometimes paces itself (slow consumer => queues fill up)
             if nf == 0 && r.bool() {
                 cs = (1..=nr as u32).map(Op::Recv).collect();
+                // rarely the receiver is away for longer than any housekeeping interval while more chunks
+                // than the queues hold are on their way
+                if nr >= 130 && r.chance(1, 5) {
+                    cs.insert(0, Op::SleepUs(2_400_000));
+                }
             }
             if nr == 0 && r.bool() {
                 ss = (1..=nf as u32).map(Op::Recv).collect();
+                if nf >= 130 && r.chance(1, 5) {
+                    ss.insert(0, Op::SleepUs(2_400_000));
+                }
             }
         } else {
             let (mut fi, mut ri) = (lf.iter(), lr.iter());
